@@ -1267,7 +1267,7 @@ func (P) Generate(g *core.Gen) {
 	genHardening(g)
 
 	// ---- legacy: all 256 hash types x every index (incl. out of range) on a few shapes
-	for k := 0; k < g.N(4, 30); k++ {
+	for k := 0; k < g.N(3, 30); k++ {
 		nIn, nOut := 1+r.Intn(3), r.Intn(4)
 		tx, _ := randTx(r, nIn, nOut)
 		sig := randSig(r)
@@ -1306,7 +1306,7 @@ func (P) Generate(g *core.Gen) {
 	}
 
 	// ---- BIP143: grid
-	for k := 0; k < g.N(4, 30); k++ {
+	for k := 0; k < g.N(3, 30); k++ {
 		nIn, nOut := 1+r.Intn(3), r.Intn(4)
 		tx, spent := randTx(r, nIn, nOut)
 		if k%3 != 0 {
@@ -1368,7 +1368,7 @@ func (P) Generate(g *core.Gen) {
 	}
 
 	// ---- BIP341/342: grid
-	for k := 0; k < g.N(4, 30); k++ {
+	for k := 0; k < g.N(3, 30); k++ {
 		nIn, nOut := 1+r.Intn(3), r.Intn(4)
 		tx, spent := randTx(r, nIn, nOut)
 		if k%3 != 0 {
